@@ -13,6 +13,11 @@ CLAIMED = {
             "Generated names, related pairs/triples, pools, wire contexts and constructor programs are checked against an independent canonical-order / case-folded-equality model, a wire round trip at arbitrary offsets with and without compression, a text round trip for host-style names, and the 255/63 limits after every constructor step. Sampling, not proof: it reports how many distinct non-trivial cases stood behind the verdict.",
             "Trusts the harness's reference model (refm/canon.rs, ~60 lines from RFC 4034 §6.1) and proptest's generators; text clause limited to the alphabet the statement names.",
             "DESIGN.md §7 C04"),
+    "C17": ("exploration",
+            "property-based testing (proptest) + exhaustive small-scope enumeration of chunk compositions against a framing reference model",
+            "The real TcpStream is polled by hand over a scripted socket: generated read chunkings with would-block steps, close positions and write-acceptance scripts; for every short stream (framed length ≤10 quick / ≤13 thorough) ALL compositions into read chunks × ALL close positions and ALL compositions into write acceptances are enumerated. Oracle: yielded items = the complete messages before the close, then clean end / error / idle; octets accepted by the socket = len_be16‖body concatenation.",
+            "Trusts the scripted socket model (wakes immediately after would-block; silent peer = Pending without wake). Zero-length frames and Ok(0) writes are outside the stated domain.",
+            "DESIGN.md §7 C17"),
 }
 
 NOT_YET = {}
